@@ -173,6 +173,30 @@ CHECKS['C09'] = dict(
          'openpyxl and the dispatcher are external. Known findings: sign-run, double-percent, newline-join.',
     technique='Lean 4 proof of the escape encoding for all texts + round-trip oracle on the implementation + correspondence of re-parsing')
 
+CHECKS['C10'] = dict(
+    text=('Lean 4 theorems (XL.Props.C10). Cycle analysis: cycles_sound, cycles_complete, cycles_nodup — the specification '
+          'enumerator lists exactly the elementary cycles of EVERY finite digraph, each once; formulas.excel.cycle.simple_cycles '
+          '(Johnson/Tarjan, blocking sets not modelled) is compared with it and with a brute-force enumeration on all digraphs '
+          'with <= 3 (quick) / <= 4 (thorough) vertices and random ones up to 9, under several labelings and dictionary orders. '
+          'Workbooks: XL.solved is the workbook solve_circular leaves behind for given cuts and marks; marked_is_circ, '
+          'circ_propagates, circ_interceptable; isolated_unchanged / isolated_without_cyclic_cells (a cell that cannot reach a '
+          'mark or a cut formula has the value of the original workbook and of the workbook without the cyclic cells, at '
+          'every evaluation depth); if_unselected_else/then, cut_invisible, resolved_value_is_original (a cut inside branches '
+          'of IF/IFERROR/IFNA that are not selected is invisible: the reported ordinary value is the value of the ORIGINAL '
+          'formula on the reported values). The decision procedure choosing cuts and marks is not modelled: the check reads '
+          'them off the dispatcher, compares every value with XL.solved, and applies oracles on random cyclic workbooks '
+          '(cells, ranges, names, guarded/unguarded back edges, every kind of guard value): termination (time-out), isolation '
+          'against the implementation on the workbook without the cyclic cells, cells on a cycle through selected branches '
+          'are errors, cells that close no such cycle have the Lean value of the selected-branch workbook, every ordinary '
+          'value satisfies its original formula (Lean), independence of cell order and PYTHONHASHSEED.'),
+    design='DESIGN.md §3 C10, §9',
+    note=COMMON_NOTE + 'Trusted/unmodelled: the dispatcher (distances of default values decide whether a marked node takes #CIRC! '
+         'or its own formula fires first: the check treats marked nodes that report #CIRC! as marked), the choice of cuts and '
+         'marks, the pruning of unselected branches done by the harness from condition values the Lean model computes. '
+         'IFS is modelled and checked by correspondence; the unselected-branch theorems cover IF, IFERROR, IFNA. '
+         'Known finding: range-on-other-cycle. Fixed by this check: d5be84e (cell-order dependence), 04f07a2.',
+    technique='Lean 4 proof (cycle enumeration: sound, complete, duplicate-free; solved workbook: marking, isolation, unselected-branch invariance) + correspondence with XL.solved + graph oracles on the implementation')
+
 CHECKS['C14'] = dict(
     text=('Lean 4 theorems (XL.Props.C14): unknown_function / unknown_function_cell (a formula with an unimplemented '
           'function evaluates to #NAME? in every cell it fills, whatever the arguments), undefined_name (#REF!), '
